@@ -428,12 +428,55 @@ Inductive op :=
 | ODirect (id : Z) (a : string) (v : val)        (* member.a = v, done on the member itself, not through the group *)
 | OMembers                                       (* group.observers / .sight_lines / .foil_detectors / list(group) *)
 | OAssignRej (a : string) (v : val) (k : nat) (e : err)   (* group.a = v where the k-th member refuses its value with e *)
-| OIter.                                         (* list(group): the iteration protocol *)
+| OIter                                          (* list(group): the iteration protocol *)
+| OConnect (classes : list Z) (nkw : option nat) (w : Z) (obs : list (list (Z * Z))).
+    (* group.connect_pipelines(classes, keywords_list of length nkw | default), base.py:400-436.
+       The pipeline objects it creates have identities nobody can predict, so the OUTCOME observed on the
+       implementation (per member: the (class, identity) of each pipeline) is an input, and the model
+       accepts it only if it meets the identity-free specification [connect_valid]:
+       one row per member, every row has exactly the requested classes in order, all identities are
+       pairwise distinct (nothing shared between or within members) and newer than the watermark w
+       (none existed before the call). *)
 
 Definition find_descr (c : gcls) (a : string) : option descr :=
   find (fun d => String.eqb (d_name d) a) (c_table c).
 
 Definition add_err (c : gcls) : err := match c_flavour c with FObserver0D => EValue | FBolometer => EType end.
+
+Fixpoint nodupz (l : list Z) : bool :=
+  match l with [] => true | x :: t => negb (existsb (Z.eqb x) t) && nodupz t end.
+
+Fixpoint zlist_eq (a b : list Z) : bool :=
+  match a, b with
+  | [], [] => true
+  | x :: a', y :: b' => (x =? y) && zlist_eq a' b'
+  | _, _ => false
+  end.
+
+Definition connect_valid (classes : list Z) (w : Z) (obs : list (list (Z * Z))) (g : group) : bool :=
+  Nat.eqb (List.length obs) (List.length g)
+  && forallb (fun row => zlist_eq (map fst row) classes) obs
+  && nodupz (map snd (List.concat obs))
+  && forallb (fun p => w <? snd p) (List.concat obs).
+
+Definition pipelines_value (row : list (Z * Z)) : val := VSeq KList (map (fun p => VObj tag_pipeline (snd p)) row).
+
+Definition connect_sem (c : gcls) (classes : list Z) (nkw : option nat) (w : Z) (obs : list (list (Z * Z)))
+           (g : group) : group * res :=
+  match find (fun d => String.eqb (d_name d) "pipelines") (c_table c),
+        find (fun d => String.eqb (d_name d) "sight_lines") (c_table c) with
+  | Some _, None =>
+      if match nkw with Some k => negb (Nat.eqb k (List.length classes)) | None => false end
+      then (g, RErr EValue)                       (* one keyword dict per pipeline class *)
+      else match classes, g with
+           | [], _ :: _ => (g, RErr EValue)       (* the first member refuses an empty pipeline list *)
+           | _, _ => if connect_valid classes w obs g
+                     then (zip_assign "pipelines" g (map pipelines_value obs), ROk)
+                     else (g, RErr EOther)        (* the observed outcome violates the specification *)
+           end
+  | Some _, Some _ => (g, RErr EOther)            (* deprecated groups: another signature, not modelled *)
+  | None, _ => (g, RErr EAttr)                    (* BolometerCamera has no connect_pipelines *)
+  end.
 
 Definition step (c : gcls) (e : env) (g : group) (o : op) : group * res :=
   match o with
@@ -473,6 +516,7 @@ Definition step (c : gcls) (e : env) (g : group) (o : op) : group * res :=
       | None => (g, RErr EAttr)
       end
   | OIter => (g, iterate c g)
+  | OConnect classes nkw w obs => connect_sem c classes nkw w obs g
   end.
 
 Fixpoint run (c : gcls) (e : env) (g : group) (ops : list op) : group * list res :=
@@ -483,3 +527,88 @@ Fixpoint run (c : gcls) (e : env) (g : group) (ops : list op) : group * list res
 
 (* the state reached by a history, without the results *)
 Definition exec (c : gcls) (e : env) (g : group) (ops : list op) : group := fst (run c e g ops).
+
+(* ---------------------------------------------------------------------------------------- *)
+(* BolometerCamera: bookkeeping of the slits (bolometry.py:126-178)                           *)
+(* ---------------------------------------------------------------------------------------- *)
+(* The camera keeps a second list, _slits, next to the foils.  add_foil_detector and every step of
+   the loop of the foil_detectors setter append the foil's slit when it is not in the list yet;
+   nothing is ever removed (also not when foils are dropped by a member-list assignment, and the
+   loop of the setter keeps what it appended before it raised).  The slit of a pool object is the
+   identity stored under "slit" in its initial store.  This machine runs next to [step]. *)
+Definition slit_of (e : env) (id : Z) : Z :=
+  match zlookup id (e_pool e) with
+  | Some (_, st) => match sget "slit" st with Some (VObj _ s) => s | _ => 0 end
+  | None => 0
+  end.
+
+Definition add_slit (s : Z) (sl : list Z) : list Z := if existsb (Z.eqb s) sl then sl else sl ++ [s].
+
+Fixpoint slits_loop (c : gcls) (e : env) (ids : list Z) (sl : list Z) : list Z :=
+  match ids with
+  | [] => sl
+  | id :: t =>
+      match type_of e id with
+      | Some ty => if accepts c ty then slits_loop c e t (add_slit (slit_of e id) sl) else sl   (* TypeError raised here *)
+      | None => sl
+      end
+  end.
+
+Definition slits_step (c : gcls) (e : env) (sl : list Z) (o : op) : list Z :=
+  match c_flavour c with
+  | FObserver0D => sl
+  | FBolometer =>
+      match o with
+      | OAdd id => match type_of e id, fresh e id with
+                   | Some ty, Some _ => if accepts c ty then add_slit (slit_of e id) sl else sl
+                   | _, _ => sl
+                   end
+      | OSetMembers (Some KList) ids => slits_loop c e ids sl
+      | _ => sl
+      end
+  end.
+
+(* the slit lists after each operation of a history *)
+Fixpoint slits_states (c : gcls) (e : env) (sl : list Z) (ops : list op) : list (list Z) :=
+  match ops with
+  | [] => []
+  | o :: t => let sl1 := slits_step c e sl o in sl1 :: slits_states c e sl1 t
+  end.
+
+(* ---------------------------------------------------------------------------------------- *)
+(* one observer named twice                                                                  *)
+(* ---------------------------------------------------------------------------------------- *)
+(* Nothing in the code stops add_observer(o) for an o that is a member already, or a member list
+   naming o twice: the member tuple then has two slots holding ONE object.  The list-of-records model
+   keeps a copy per slot; [step_shared] restores the sharing: after every operation all copies of an
+   identity take the state of its last slot (the zip loops write slot after slot, so the last write is
+   the one that stays), observe() runs once per slot on the shared object, adding a member again
+   appends another slot for the same object.  On groups of distinct observers it IS [step]
+   (Proofs/C15_Shared.v).  Not covered: a loop that stops half way (a member refusing a value, a bad
+   render engine in the middle) on a group that has such repeats. *)
+Definition last_copy (g : group) (id : Z) : option member := find (fun m => mid m =? id) (rev g).
+
+Definition share (g : group) : group :=
+  map (fun m => match last_copy g (mid m) with Some m' => m' | None => m end) g.
+
+Definition count_id (g : group) (id : Z) : Z := Z.of_nat (List.length (filter (fun m => mid m =? id) g)).
+
+Definition mbump_by (n : Z) (m : member) : member :=
+  {| mid := mid m; mtype := mtype m; mparent := mparent m; mobs := mobs m + n; mstore := mstore m |}.
+
+Definition step_shared (c : gcls) (e : env) (g : group) (o : op) : group * res :=
+  match o with
+  | OObserve => (map (fun m => mbump_by (count_id g (mid m)) m) g, RObs (map mid g))
+  | OAdd id =>
+      match find (fun m => mid m =? id) g with
+      | Some m => if accepts c (mtype m) then (g ++ [m], ROk) else (g, RErr (add_err c))
+      | None => step c e g o
+      end
+  | _ => let (g', r) := step c e g o in (share g', r)
+  end.
+
+Fixpoint run_shared (c : gcls) (e : env) (g : group) (ops : list op) : group * list res :=
+  match ops with
+  | [] => (g, [])
+  | o :: t => let (g1, r) := step_shared c e g o in let (g2, rs) := run_shared c e g1 t in (g2, r :: rs)
+  end.
